@@ -102,15 +102,17 @@ def run(ctx):
     # eligibility requires equal priority
     h = prog.fn(FD + "::should_transfer_now")
     hflow = Flow(h.body)
-    for bb, e in ret_assign_blocks(h.body, lambda e: not (e[0] == "const" and e[2] is False)):
-        fs = hflow.facts_at(bb)
-        ok = any(a[0] == "eq" and t and {"self.priority", "priority"} == {show(a[1]), show(a[2])} for (a, t) in fs)
-        key = "should_transfer_now priority match (%s)" % show(e, 40)
-        if ok:
-            r1.ok(key, "", loc(h.sp))
-        else:
-            r1.violation(key, "should_transfer_now can accept an object of another priority queue", loc(h.sp))
-    r1.floor(7, "priority facts")
+    rets = list(ret_assign_blocks(h.body, lambda e: not (e[0] == "const" and e[2] is False)))
+    bad = [(bb, e) for bb, e in rets
+           if not any(a[0] == "eq" and t and {"self.priority", "priority"} == {show(a[1]), show(a[2])} for (a, t) in hflow.facts_at(bb))]
+    key = "should_transfer_now priority match"
+    if not rets:
+        raise model.AnchorMissing("should_transfer_now: no return of a value other than `false` found")
+    if not bad:
+        r1.ok(key, "%d return(s) of a value other than false, each dominated by priority == self.priority" % len(rets), loc(h.sp))
+    else:
+        r1.violation(key, "should_transfer_now can accept an object of another priority queue (returns %s without the priority test)" % show(bad[0][1], 40), loc(h.sp))
+    r1.floor(6, "priority facts")
 
     # ---- R2 ---------------------------------------------------------------------------------
     r2 = ctx.rule("C13.R2", "SenderSessionList.sessions is built once in Sender::new with max(1, multiplex_files) sessions and "
